@@ -25,6 +25,17 @@ def order_key(r):
     return (r.model, r.chain, r.number, r.icode or " ")
 
 
+def _with_base(st, idxs):
+    if len(idxs) <= 1 or idxs[0] is None:
+        return idxs[0]
+    from rnapolis.tertiary import BASE_ATOMS
+    for i in idxs:
+        r = st.residues[i]
+        if any(a.name in BASE_ATOMS.get(r.one_letter_name, []) for a in r.atoms):
+            return i
+    return idxs[0]
+
+
 def real(ci):
     """find_stackings on case ci -> list of (index1, index2, topology) | ('err', name)"""
     from rnapolis.annotator import find_stackings
@@ -44,9 +55,22 @@ def real(ci):
     for s in found:
         k1, k2 = (s.nt1.label, s.nt1.auth), (s.nt2.label, s.nt2.auth)
         i1, i2 = by.get(k1, [None]), by.get(k2, [None])
-        # identities are unique in generated inputs (g3.well_formed); keep the first index otherwise
-        out.append((i1[0], i2[0], s.topology.value))
+        # identities are unique in generated inputs (g3.well_formed) except in the split-residue family, where the entry
+        # that carries the base atoms is the one that can stack
+        out.append((_with_base(st, i1), _with_base(st, i2), s.topology.value))
     return out
+
+
+def real_by_identity(ci):
+    """find_stackings on case ci as a sorted list of (identity, identity, topology) — for structures in which two entries
+    share their identifiers, where a reported stacking cannot be attributed to an entry"""
+    from rnapolis.annotator import find_stackings
+    tag, st, model = _CASES[ci]
+    try:
+        found = find_stackings(st, model)
+    except Exception as e:  # noqa: BLE001
+        return ("err", type(e).__name__)
+    return sorted((str((s.nt1.label, s.nt1.auth)), str((s.nt2.label, s.nt2.auth)), s.topology.value) for s in found)
 
 
 def parse_model(resp):
@@ -138,6 +162,12 @@ def build_inputs(ctx, res):
             cases.append(("shuffle-residues", g3.shuffle_residues(g3.window(s, rng, 40), rng), None))
             # consecutive (stacked) residues that share chain and number and differ only in the insertion code
             cases.append(("icode-siblings", g3.icode_siblings(g3.window(s, rng, 30), rng), None))
+            sp = g3.split_residue(g3.window(s, rng, 30), rng, base_together=True)
+            if sp is not None:
+                cases.append(("split-residue", sp, None))
+            sp = g3.split_residue(g3.window(s, rng, 30), rng)
+            if sp is not None:
+                cases.append(("split-residue-both-with-base", sp, None))
         w = g3.window(s, rng, 30)
         mm = multi_model(w, rng)
         for m in (None, 1, 2, 3):
@@ -171,7 +201,7 @@ def build_inputs(ctx, res):
                 rs.append(g3.renumber(r, rng.choice("AB"), len(rs) * 3 + rng.randint(0, 2)))
         rng.shuffle(rs)
         cases.append(("placement-mix", g3.mk_structure(rs), None))
-    cases = [c for c in cases if g3.well_formed(c[1])]
+    cases = [c for c in cases if g3.well_formed(c[1], allow_repeated_identity=c[0].startswith("split-residue"))]
     return cases
 
 
@@ -236,6 +266,20 @@ def run(ctx):
                 res.fail("spec", "C04:threshold:" + re.sub(r"[-+][0-9.e-]+$", "", tag.split(":", 1)[1]) + (":missing" if exp else ":unjustified"),
                          {"family": tag, "model": m, "structure": g3.to_json(st)},
                          "placement %s of the stated thresholds (6 A, 35 deg, 45 deg) is %s" % (tag.split(":", 1)[1], "not reported" if exp else "reported"))
+        if tag == "split-residue-both-with-base":
+            # two entries carry the same identifiers and both have base atoms: compared as multisets of
+            # (identity, identity, topology); structures with an undecided pair are skipped
+            if und:
+                res.undecided += 1
+                continue
+            idt = lambda i: str((st.residues[i].label, st.residues[i].auth))  # noqa: E731
+            want = sorted((idt(a), idt(b), t) for a, b, t in yes)
+            got = real_by_identity(cases.index((tag, st, m)))
+            res.case((tag, len(st.residues), hash(tuple(want))), nontrivial=bool(yes))
+            if got != want:
+                res.fail("spec", "C04:entries-with-shared-identifiers", {"family": tag, "model": m, "structure": g3.to_json(st)},
+                         "reported %r, the definition applied to every entry gives %r" % (got[:6], want[:6]))
+            continue
         fails, touched = compare(st, m, impl, yes, und)
         res.undecided += touched
         key = hash(g3.to_request(st)) if nres <= 6 else (tag, nres, len(yes), hash(tuple(yes)))
